@@ -329,6 +329,14 @@ func Main(t *testing.T, property string, run RunFunc) {
 		}
 		if i%64 == 63 {
 			runtime.GC()
+			// goroutines that stay blocked in abandoned bubbles keep their memory; a worker stops its seed
+			// loop early (and reports what it covered) rather than be killed by the kernel
+			var ms runtime.MemStats
+			runtime.ReadMemStats(&ms)
+			if ms.HeapAlloc > 1500<<20 {
+				sum.Stats["worker-stopped-early-memory"] = 1
+				break
+			}
 		}
 	}
 	for h := range ntHashes {
